@@ -93,6 +93,20 @@ def resolve(key):
     raise ValueError(key)
 
 
+def flood_key(fam, w, n):
+    if fam == "Arr":
+        return ["Arr", ["U", w], n]
+    if fam == "ArrBit":
+        return ["Arr", ["Bit"], n]
+    if fam in ("U", "S", "BV"):
+        return [fam, n]
+    if fam == "QU":
+        return ["Q", "Signal", ["U", n]]
+    if fam == "QArr":
+        return ["Q", "Signal", ["Arr", ["BV", w], n]]
+    return ["P", ["S", n], "in"]
+
+
 def tsub(x, y):
     if x == y:
         return True
@@ -274,6 +288,35 @@ class Machine:
         k = op[0]
         if k == "T":
             self.request(i, op[1])
+        elif k == "flood":
+            # MANY distinct parametrisations of one family between two uses of the same parameters (the class caches must
+            # not forget: equal parameters give the identical class however many other classes were created in between)
+            fam, w, count = op[1], op[2], op[3]
+            first = {}
+            probes = sorted({1, 2, count // 2, count - 1, count})
+            for n in range(1, count + 1):
+                key = flood_key(fam, w, n)
+                cls = resolve(key)
+                self.stats["requests"] += 1
+                if n in probes:
+                    first[n] = cls
+                    # the probes take part in the lattice / identity bookkeeping like every other requested class
+                    self.request(i, key)
+            self.stats["flooded"] = self.stats.get("flooded", 0) + count
+            for n in probes:
+                again = resolve(flood_key(fam, w, n))
+                if again is not first[n]:
+                    self.v(i, "equal-parameters-different-class", key=str(canon(flood_key(fam, w, n))), after_other_parametrisations=count)
+                    return
+            # ... and the classes requested before the flood are still the ones handed out now
+            for ck, cls in list(self.classes.items()):
+                try:
+                    again = resolve(key_of_canon(ck))
+                except Exception:
+                    continue
+                if again is not cls:
+                    self.v(i, "equal-parameters-different-class", key=str(ck), after_other_parametrisations=count)
+                    return
         elif k == "bad":
             try:
                 resolve(op[1])
